@@ -26,20 +26,115 @@
 -/
 import QV.Model.Server
 import QV.Proofs.ServerNames
-import QV.Proofs.WriterSafe
 
 namespace QV.ServerSafety
 open QV QV.Writer QV.Server
 
-/-! The hint contract `HintOK`, the calls `Call` (`run`, `Pre`), `Mono`, `MacLenOK` and the interface
-    `WriterSafe` itself are declared in `QV.Proofs.WriterSafe` (same namespace), next to the instance
-    `QV.Writer.writerSafe : WriterSafe` proved from C12/C13; `compNames` / `rdataNames` are
-    `QV.Writer.compNames` / `QV.Writer.rdataNames`. -/
+/-! ### the hint contract (C13) -/
+
+/-- a hint is *valid* for the name it accompanies: the anchor it resolves to (if any) starts an
+    earlier copy of that name. (`write_hinted_name` falls back to the scan when the anchor is
+    absent, and ignores an explicit pointer that is not below the cursor.) -/
+def HintOK (Den : State → Prior → WName → Prop) (s : State) : Hint → WName → Prop
+  | .qname, n => ∀ q, s.qname = some q → Den s q n
+  | .mostRecentOwner, n => ∀ q, s.mostRecentOwner = some q → Den s q n
+  | .mostRecentNameInRdata, n => ∀ q, s.mostRecentNameInRdata = some q → Den s q n
+  | .explicit p, n => p < s.cursor → Den s ⟨p, n.len⟩ n
+  | .none, _ => True
+
+/-- the names `write_components` finds in one RDATA, in the order it pushes their pointers onto
+    the caller's `HintPointerVec` (mirrors the parse of `Writer.writeComponents`) -/
+def compNames : List CompType → List UInt8 → List WName
+  | [], _ => []
+  | .compressibleName :: ts, rd =>
+    match WName.parse rd with
+    | none => []
+    | some (n, rest) => n :: compNames ts rest
+  | .uncompressibleName :: ts, rd =>
+    match WName.parse rd with
+    | none => []
+    | some (n, rest) => n :: compNames ts rest
+  | .fixedLen k :: ts, rd => if rd.length < k then [] else compNames ts (rd.drop k)
+
+def rdataNames (cls ty : Nat) (rd : List UInt8) : List WName := compNames (componentTypes cls ty) rd
+
+/-- the writer calls the server makes besides `add_question`, `clear_rrs` and `finish` -/
+inductive Call where
+  | setId (v : Nat) | setBit (byte mask : Nat) (v : Bool) | setOpcode (v : Nat) | setRcode (v : Nat)
+  | setExtendedRcode (v : Nat) | setLimit (v : Nat) | setEdns (p : Nat)
+  | setTsig (m : TsigMode) (rr : TsigRr)
+  | addRr (sec : RrSection) (hint : Hint) (owner : WName) (ty cls ttl : Nat) (rdata : List UInt8)
+  | addRrset (sec : RrSection) (hint : Hint) (owner : WName) (ty cls ttl : Nat)
+      (rdatas : List (List UInt8))
+
+def Call.run : Call → M Unit
+  | .setId v => Writer.setId v
+  | .setBit b m v => Writer.setBit b m v
+  | .setOpcode v => Writer.setOpcode v
+  | .setRcode v => Writer.setRcode v
+  | .setExtendedRcode v => Writer.setExtendedRcode v
+  | .setLimit v => Writer.setLimit v
+  | .setEdns p => Writer.setEdns p
+  | .setTsig m rr => Writer.setTsig m rr
+  | .addRr sec h o ty cls ttl rd => addRrOp sec h o ty cls ttl rd
+  | .addRrset sec h o ty cls ttl rds => addRrsetOp sec h o ty cls ttl rds
+
+/-- the documented contract of each call -/
+def Call.Pre (Den : State → Prior → WName → Prop) (s : State) : Call → Prop
+  | .setBit b _ _ => b < Gen.HEADER_SIZE
+  | .setTsig m rr => rr.keyName.WF ∧ (tsigAlgName m).WF ∧ rr.timeSigned.length = 6 ∧ rr.serverTime.length = 6
+  | .addRr _ h o _ _ _ _ => o.WF ∧ HintOK Den s h o
+  | .addRrset _ h o _ _ _ _ => o.WF ∧ HintOK Den s h o
+  | _ => True
+
+/-- what every call preserves of the anchors: the QNAME anchor itself, and the validity of every
+    anchor that was valid -/
+def Mono (Den : State → Prior → WName → Prop) (s s' : State) : Prop :=
+  s'.qname = s.qname ∧ ∀ p n, Den s p n → Den s' p n
 
 theorem Mono.refl (Den) (s : State) : Mono Den s s := ⟨rfl, fun _ _ h => h⟩
 
 theorem Mono.trans {Den} {a b c : State} (h1 : Mono Den a b) (h2 : Mono Den b c) : Mono Den a c :=
   ⟨h2.1.trans h1.1, fun p n h => h2.2 p n (h1.2 p n h)⟩
+
+/-- the MAC handed back by the signing function fits the reservation made by `set_tsig` -/
+def MacLenOK (macFn : Tsig → List UInt8 → List UInt8) : Prop :=
+  ∀ ts msg, (macFn ts msg).length ≤
+    (match ts.mode with
+     | .request a _ => algOutputSize a
+     | .response a _ _ => algOutputSize a
+     | .subsequent a _ _ => algOutputSize a
+     | .unsigned _ => 0)
+
+/-- **Interface to the writer's theorems** (to be discharged from C12/C13). -/
+structure WriterSafe where
+  I : State → Prop
+  Den : State → Prior → WName → Prop
+  /-- the caller's `HintPointerVec` is not part of the writer -/
+  I_hv : ∀ s v, I s → I { s with hv := v }
+  Den_hv : ∀ s v p n, Den s p n → Den { s with hv := v } p n
+  new_I : ∀ buf limit s, Writer.new buf limit = .ok s → I s
+  call : ∀ (c : Call) s, I s → c.Pre Den s →
+    (c.run s).1 ≠ .panic ∧ I (c.run s).2 ∧ Mono Den s (c.run s).2
+  addQuestion : ∀ qn qt qc s, I s → qn.WF →
+    (Writer.addQuestion qn qt qc s).1 ≠ .panic ∧ I (Writer.addQuestion qn qt qc s).2 ∧
+    (∀ p n, Den s p n → Den (Writer.addQuestion qn qt qc s).2 p n) ∧
+    ((Writer.addQuestion qn qt qc s).1 = .ok () → s.sect = .question → s.qdcount = 0 →
+      HintOK Den (Writer.addQuestion qn qt qc s).2 .qname qn)
+  addRr_post : ∀ sec hint owner ty cls ttl rd s, I s → owner.WF → HintOK Den s hint owner →
+    (addRrOp sec hint owner ty cls ttl rd s).1 = .ok () →
+    HintOK Den (addRrOp sec hint owner ty cls ttl rd s).2 .mostRecentOwner owner ∧
+    ∀ n, (rdataNames cls ty rd).getLast? = some n →
+      HintOK Den (addRrOp sec hint owner ty cls ttl rd s).2 .mostRecentNameInRdata n
+  addRrset_post : ∀ sec hint owner ty cls ttl rds s, I s → owner.WF → HintOK Den s hint owner →
+    rds ≠ [] → (addRrsetOp sec hint owner ty cls ttl rds s).1 = .ok () →
+    HintOK Den (addRrsetOp sec hint owner ty cls ttl rds s).2 .mostRecentOwner owner ∧
+    (s.hv = some [] → ∀ v : List (Option Nat), (addRrsetOp sec hint owner ty cls ttl rds s).2.hv = some v →
+      ∀ i p : Nat, v[i]? = some (some p) →
+        ∃ n, (rds.flatMap (rdataNames cls ty))[i]? = some n ∧
+          Den (addRrsetOp sec hint owner ty cls ttl rds s).2 ⟨p, n.len⟩ n)
+  clearRrs_I : ∀ s, I s → I (clearRrs s).2
+  finish : ∀ s macFn, I s → MacLenOK macFn → Writer.finish s macFn ≠ .panic
 
 /-! ### a Hoare logic for computations over the writer state -/
 
@@ -53,7 +148,7 @@ theorem Safe.weaken {ε α : Type} {f : State → Out ε α × State} {s : State
     (h : Safe W f s Q) (hq : ∀ a s', W.I s' → Mono W.Den s s' → Q a s' → Q' a s') : Safe W f s Q' :=
   ⟨h.1, h.2.1, h.2.2.1, fun a ha => hq a _ h.2.1 h.2.2.1 (h.2.2.2 a ha)⟩
 
-theorem PM.bind_apply {α β : Type} (x : PM α) (g : α → PM β) (s : State) :
+theorem M.bind_apply {α β : Type} (x : M α) (g : α → M β) (s : State) :
     (x >>= g) s = match x s with
       | (.ok a, s') => g a s'
       | (.err e, s') => (.err e, s')
@@ -74,11 +169,50 @@ theorem safe_bind_M {α β : Type} {x : M α} {g : α → M β} {s : State} {Q :
   | err e => exact ⟨by simp, h2, h3, fun a ha => by cases ha⟩
   | panic => exact absurd rfl h1
 
-theorem safe_bind_PM {α β : Type} {x : PM α} {g : α → PM β} {s : State} {Q : α → State → Prop}
-    {R : β → State → Prop} (hx : Safe W x s Q)
-    (hg : ∀ a s', W.I s' → Mono W.Den s s' → Q a s' → Safe W (g a) s' R) : Safe W (x >>= g) s R := by
+theorem safe_pure_M {α : Type} (a : α) (s : State) (hi : W.I s) {Q : α → State → Prop} (hq : Q a s) :
+    Safe W (pure a : M α) s Q :=
+  ⟨by simp [pure], hi, Mono.refl _ _, fun b hb => by cases hb; exact hq⟩
+
+/-- a `Call` whose contract is met -/
+theorem safe_call (c : Call) (s : State) (hi : W.I s) (hp : c.Pre W.Den s) :
+    Safe W c.run s (fun _ _ => True) := by
+  obtain ⟨h1, h2, h3⟩ := W.call c s hi hp
+  exact ⟨h1, h2, h3, fun _ _ => trivial⟩
+
+/-- hints stay valid along `Mono` as long as the anchor they name is not reassigned -/
+theorem hintOK_qname_mono {s s' : State} {n : WName} (h : HintOK W.Den s .qname n)
+    (hm : Mono W.Den s s') : HintOK W.Den s' .qname n := by
+  intro q hq
+  rw [hm.1] at hq
+  exact hm.2 q n (h q hq)
+
+/-! ### the same logic for the answer phase, which runs on the writer plus a ghost operation log
+    (`PS`); assertions speak about the writer component only -/
+
+/-- running `f` from `s`: no panic, the writer invariant again, anchors monotone, `Q` on success -/
+def SafeP {ε α : Type} (f : PS → Out ε α × PS) (s : PS) (Q : α → State → Prop) : Prop :=
+  (f s).1 ≠ .panic ∧ W.I (f s).2.w ∧ Mono W.Den s.w (f s).2.w ∧ ∀ a, (f s).1 = .ok a → Q a (f s).2.w
+
+theorem SafeP.weaken {ε α : Type} {f : PS → Out ε α × PS} {s : PS} {Q Q' : α → State → Prop}
+    (h : SafeP W f s Q) (hq : ∀ a w', W.I w' → Mono W.Den s.w w' → Q a w' → Q' a w') : SafeP W f s Q' :=
+  ⟨h.1, h.2.1, h.2.2.1, fun a ha => hq a _ h.2.1 h.2.2.1 (h.2.2.2 a ha)⟩
+
+theorem safeP_congr {ε α : Type} {f g : PS → Out ε α × PS} {s : PS} {Q : α → State → Prop}
+    (h : f s = g s) (hg : SafeP W g s Q) : SafeP W f s Q := by
+  unfold SafeP at hg ⊢; rw [h]; exact hg
+
+theorem PM.bind_apply {α β : Type} (x : PM α) (g : α → PM β) (s : PS) :
+    (x >>= g) s = match x s with
+      | (.ok a, s') => g a s'
+      | (.err e, s') => (.err e, s')
+      | (.panic, s') => (.panic, s') := rfl
+
+theorem safe_bind_PM {α β : Type} {x : PM α} {g : α → PM β} {s : PS} {Q : α → State → Prop}
+    {R : β → State → Prop} (hx : SafeP W x s Q)
+    (hg : ∀ a s', W.I s'.w → Mono W.Den s.w s'.w → Q a s'.w → SafeP W (g a) s' R) :
+    SafeP W (x >>= g) s R := by
   obtain ⟨h1, h2, h3, h4⟩ := hx
-  unfold Safe
+  unfold SafeP
   rw [PM.bind_apply]
   generalize x s = r at h1 h2 h3 h4
   obtain ⟨o, s'⟩ := r
@@ -89,54 +223,43 @@ theorem safe_bind_PM {α β : Type} {x : PM α} {g : α → PM β} {s : State} {
   | err e => exact ⟨by simp, h2, h3, fun a ha => by cases ha⟩
   | panic => exact absurd rfl h1
 
-theorem safe_pure_M {α : Type} (a : α) (s : State) (hi : W.I s) {Q : α → State → Prop} (hq : Q a s) :
-    Safe W (pure a : M α) s Q :=
-  ⟨by simp [pure], hi, Mono.refl _ _, fun b hb => by cases hb; exact hq⟩
-
-theorem safe_pure_PM {α : Type} (a : α) (s : State) (hi : W.I s) {Q : α → State → Prop} (hq : Q a s) :
-    Safe W (pure a : PM α) s Q :=
+theorem safe_pure_PM {α : Type} (a : α) (s : PS) (hi : W.I s.w) {Q : α → State → Prop} (hq : Q a s.w) :
+    SafeP W (pure a : PM α) s Q :=
   ⟨by simp [pure, PM.pure], hi, Mono.refl _ _, fun b hb => by cases hb; exact hq⟩
 
-theorem safe_fail_PM {α : Type} (e : PErr) (s : State) (hi : W.I s) {Q : α → State → Prop} :
-    Safe W (PM.fail e : PM α) s Q :=
+theorem safe_fail_PM {α : Type} (e : PErr) (s : PS) (hi : W.I s.w) {Q : α → State → Prop} :
+    SafeP W (PM.fail e : PM α) s Q :=
   ⟨by simp [PM.fail], hi, Mono.refl _ _, fun b hb => by cases hb⟩
 
-/-- a `Call` whose contract is met -/
-theorem safe_call (c : Call) (s : State) (hi : W.I s) (hp : c.Pre W.Den s) :
-    Safe W c.run s (fun _ _ => True) := by
-  obtain ⟨h1, h2, h3⟩ := W.call c s hi hp
-  exact ⟨h1, h2, h3, fun _ _ => trivial⟩
-
-/-- `writer_call()?` -/
-theorem safe_liftW {α : Type} {m : M α} {s : State} {Q : α → State → Prop} (h : Safe W m s Q) :
-    Safe W (PM.liftW m) s Q := by
-  obtain ⟨h1, h2, h3, h4⟩ := h
-  unfold Safe
-  dsimp only [PM.liftW]
-  generalize m s = r at h1 h2 h3 h4
-  obtain ⟨o, s'⟩ := r
-  cases o with
-  | ok a => exact ⟨by simp, h2, h3, fun b hb => by cases hb; exact h4 a rfl⟩
-  | err e => exact ⟨by simp, h2, h3, fun b hb => by cases hb⟩
-  | panic => exact absurd rfl h1
-
-theorem safe_executeAllowingTruncation {m : M Unit} {s : State} (h : Safe W m s (fun _ _ => True)) :
-    Safe W (executeAllowingTruncation m) s (fun _ _ => True) := by
+/-- a logged header operation -/
+theorem safe_hdrOp (ev : Ev) {m : M Unit} {s : PS} {Q : Unit → State → Prop} (h : Safe W m s.w Q) :
+    SafeP W (PM.hdrOp ev m) s (fun _ _ => True) := by
   obtain ⟨h1, h2, h3, _⟩ := h
-  unfold Safe
-  dsimp only [executeAllowingTruncation]
-  generalize m s = r at h1 h2 h3
-  obtain ⟨o, s'⟩ := r
+  unfold SafeP
+  dsimp only [PM.hdrOp]
+  generalize m s.w = r at h1 h2 h3
+  obtain ⟨o, w'⟩ := r
   cases o with
   | ok a => exact ⟨by simp, h2, h3, fun _ _ => trivial⟩
-  | err e => cases e <;> exact ⟨by simp, h2, h3, fun _ _ => trivial⟩
+  | err e => exact ⟨by simp, h2, h3, fun _ _ => trivial⟩
   | panic => exact absurd rfl h1
 
-/-- hints stay valid along `Mono` as long as the anchor they name is not reassigned -/
-theorem hintOK_qname_mono {s s' : State} {n : WName} (h : HintOK W.Den s .qname n)
-    (hm : Mono W.Den s s') : HintOK W.Den s' .qname n := by
-  intro q hq
-  rw [hm.1] at hq
-  exact hm.2 q n (h q hq)
+/-- a logged record-adding call: `Some(hv)` when it was made and succeeded, `None` when it was
+    optional and did not fit -/
+theorem safe_addCall (ev : AddEv) {m : M HV} {s : PS} {Q : HV → State → Prop} (h : Safe W m s.w Q) :
+    SafeP W (PM.addCall ev m) s (fun o w' => ∀ hv, o = some hv → Q hv w') := by
+  obtain ⟨h1, h2, h3, h4⟩ := h
+  unfold SafeP
+  dsimp only [PM.addCall]
+  generalize m s.w = r at h1 h2 h3 h4
+  obtain ⟨o, w'⟩ := r
+  cases o with
+  | ok a => exact ⟨by simp, h2, h3, fun b hb hv hhv => by cases hb; cases hhv; exact h4 a rfl⟩
+  | err e =>
+    dsimp only
+    split
+    · exact ⟨by simp, h2, h3, fun b hb hv hhv => by cases hb; cases hhv⟩
+    · exact ⟨by simp, h2, h3, fun b hb => by cases hb⟩
+  | panic => exact absurd rfl h1
 
 end QV.ServerSafety
